@@ -496,6 +496,9 @@ func (in *labInst) settle(send func([]byte) error, min int) ([]labRx, error) {
 	in.barrierN++
 	n := in.barrierN
 	if err := send(in.barrierBytes(n)); err != nil {
+		if _, lost := err.(labLost); lost {
+			return nil, err
+		}
 		return nil, fmt.Errorf("harness could not send the barrier: %v", err)
 	}
 	var out []labRx
